@@ -279,7 +279,9 @@ def rule_pipeline(ctx: Ctx) -> RuleResult:
         back = [n for n in r if n in loops or n is cfg.exit]
         if back:
             # permitted when the path passes a falsy-key test (`if key:` false edge)
-            keytests = [n for n in cfg.nodes if n.kind == "test" and isinstance(n.ast, ast.Name) and n.ast.id == "key"]
+            # the loop variable of the batch loop, by role: the target of `for <key> in <keys parameter>`
+            keyvars = {h.ast.target.id for h in loops if isinstance(h.ast.target, ast.Name)}
+            keytests = [n for n in cfg.nodes if n.kind == "test" and isinstance(n.ast, ast.Name) and n.ast.id in keyvars]
             r2 = cfg.reachable_from_edges([(t, "T")], avoid=unh + alt + keytests + [n for n in cfg.nodes if n.kind == "raisestmt"])
             if any(n in r2 for n in loops) or cfg.exit in r2:
                 rr.add(finding("ORDER", pi, t.stmt, "a key the widget returned unhandled can finish the iteration without being offered to unhandled_input", construct="unhandled key skips unhandled_input"))
